@@ -271,6 +271,14 @@ func runCase(c Case, ctx *hx.Ctx) *hx.Failure {
 	if err != nil {
 		return hx.Failf("C19/dump-unreadable", "the dump is not in the documented format: %v", err)
 	}
+	// every entry that was loaded while still alive as a cache entry must be in the instance
+	// (stale-but-retained lazy entries included)
+	for k, le := range loaded {
+		if le.GetCacheExpirationTime() > time.Now().Unix()+2 && am[k] == nil {
+			return hx.Failf("C19/live-entry-not-loaded", "an entry whose cache expiry lies %d s in the future (message expiry %d s) was not admitted by /load_dump", le.GetCacheExpirationTime()-time.Now().Unix(), le.GetMsgExpirationTime()-time.Now().Unix())
+		}
+	}
+
 	// Reload into B
 	b := cachex.New(4096, c.Lazy)
 	defer b.Close()
